@@ -679,6 +679,17 @@ func (env *SpecEnv) call(e *SExpr) SVal {
 	args := e.Args[1:]
 	if fe.Op == "ident" {
 		switch fe.Name {
+		case "called", "calledOK", "mayHaveCalled", "callarg", "callres", "ncalls", "calledBefore":
+			// guard against silently vacuous specs: the name must denote something callable
+			for i, a := range args {
+				if a.Op == "str" && (i == 0 || fe.Name == "calledBefore") && !fv.eng.knownCallName(a.Val) {
+					env.fail("%s(%q): no function, method or callback of that name exists", fe.Name, a.Val)
+				}
+			}
+		}
+	}
+	if fe.Op == "ident" {
+		switch fe.Name {
 		case "len", "cap":
 			x := env.eval(args[0])
 			if x.NoCall {
